@@ -210,6 +210,7 @@ func (r *c10Run) absorb(prompt bool) {
 // retransmits what MQTT lets it retransmit.
 func (r *c10Run) resume() {
 	old := r.cur
+	r.w.ev(&Ev{K: EvNote, C: r.w.dials, S: "harness-takes-over"})
 	if bc := r.bc(); bc != nil && !bc.BEOF {
 		bc.Drop()
 	}
@@ -427,6 +428,7 @@ func (r *c10Run) judge(p *core.Plan) {
 		var arr []arrival
 		rejectedHere := map[packet.ID]uint64{}
 		closedAt := uint64(0)
+		harnessAt := uint64(0) // from here on the harness itself closes things
 		for _, e := range w.Hist {
 			if e.C != c.N {
 				continue
@@ -439,6 +441,10 @@ func (r *c10Run) judge(p *core.Plan) {
 			case EvClose:
 				if closedAt == 0 {
 					closedAt = e.Seq
+				}
+			case EvNote:
+				if e.S == "harness-takes-over" && harnessAt == 0 {
+					harnessAt = e.Seq
 				}
 			}
 		}
@@ -468,8 +474,8 @@ func (r *c10Run) judge(p *core.Plan) {
 				continue
 			}
 			res.Count("callback_rejections", 1)
-			if closedAt == 0 {
-				res.Violate("C10", "C10.rejected", "not-closed", fmt.Sprintf("connection %d stayed open after the application rejected message #%d", c.N, cb.tag))
+			if closedAt == 0 || (harnessAt != 0 && closedAt > harnessAt) {
+				res.Violate("C10", "C10.rejected", "not-closed", fmt.Sprintf("the client did not close connection %d after the application rejected message #%d (the broker would never redeliver it)", c.N, cb.tag))
 			}
 			// the arrival that led to this callback: the latest PUBLISH carrying the
 			// tag (QoS 0/1, early mode) or the latest PUBREL of its id (default mode)
